@@ -297,7 +297,18 @@ def run_check(prop: str, tier: str, master: int, n_runs=None, budget_s=None, cfg
             ne = nq if tier == "quick" else nt
             if n_runs:
                 ne = max(1, ne * n // max(1, cfg[tier]))
-            tasks += [(prop, f"{family}-extra{k}", n + 100000 * (k + 1) + i, master, over) for i in range(ne)]
+            extra_tasks = [(prop, f"{family}-extra{k}", n + 100000 * (k + 1) + i, master, over) for i in range(ne)]
+            # interleave, so that a time budget cut (slow / loaded machine) thins both families
+            # instead of dropping the dedicated batch
+            merged, a_i, b_i = [], 0, 0
+            while a_i < len(tasks) or b_i < len(extra_tasks):
+                if b_i * len(tasks) <= a_i * len(extra_tasks) and b_i < len(extra_tasks) or a_i >= len(tasks):
+                    merged.append(extra_tasks[b_i])
+                    b_i += 1
+                else:
+                    merged.append(tasks[a_i])
+                    a_i += 1
+            tasks = merged
     if budget_s is None:
         budget_s = float(os.environ.get("VERIF_BUDGET_S", 0) or (170 if tier == "quick" else 2400))
     results, errors, skipped = core.run_pool(worker, tasks, cap_s=900, budget_s=budget_s)
@@ -404,6 +415,16 @@ def run_check(prop: str, tier: str, master: int, n_runs=None, budget_s=None, cfg
         "oracles (sim/oracles.py) are correct: closed-form support functions, certificate-checked LP / convex duals, Lawson-Hanson NNLS for alpha, active-set KKT for u*",
         "hyper-parameter fitting is stubbed (seeded, well-conditioned values); histories are adversarial only within the families of DESIGN.md 3.3; sizes K<=8, m<=3",
     ]
+    if prop == "C11" and not cfg_over:
+        from . import predicates
+
+        dsum, dviol, derr, dcls = predicates.c11_direct(tier, master, 60 if tier == "quick" else 900)
+        coverage["direct_workload_not_simulation"] = dsum
+        coverage["distinct_nontrivial"] += dcls
+        coverage["evaluations"] += dsum["calls"]
+        coverage["rule"] += "; plus direct pessimistic-comparison calls of a declared seeded workload (distinct = decided classes by cone shape / oracle answer / predicate answer / degenerate edge)"
+        out_viol += dviol
+        errors += derr
     core.finish(prop, tier, master, t0, coverage, out_viol, errors, assumptions, vacuity)
 
 
